@@ -19,7 +19,8 @@
 (*        paras : Seq(SUBSET token) the                                     *)
 (*        token sets of the body's top-level paragraphs, loose : tokens    *)
 (*        not in a top-level paragraph, regen : part names outside the     *)
-(*        byte-identity claim]                                             *)
+(*        byte-identity claim, xrels : <<src, id>> of relationships an     *)
+(*        edit replaced by design]                                         *)
 (* An operation is a record [op |-> name, ...]; ch are the library's free  *)
 (* choices (fresh relationship id, fresh media name).                      *)
 (***************************************************************************)
@@ -272,9 +273,9 @@ ParasOf(body) == LET ps == SeqFilter(body, IsParaBlk) IN [i \in 1..Len(ps) |-> B
 LooseOf(body) == UNION {BlockToks(body[b]) : b \in {x \in 1..Len(body) : ~IsParaBlk(body[x])}}
 
 \* ---- the machine --------------------------------------------------------------
-InitOf(m) == [m |-> m, o |-> m, paras |-> ParasOf(m.body), loose |-> LooseOf(m.body), regen |-> AlwaysRegen]
+InitOf(m) == [m |-> m, o |-> m, paras |-> ParasOf(m.body), loose |-> LooseOf(m.body), regen |-> AlwaysRegen, xrels |-> {}]
 NoPkg == [parts |-> {}, rels |-> {}, body |-> <<>>, ns |-> "w", pkgns |-> "default", hlink |-> ""]
-Closed == [m |-> NoPkg, o |-> NoPkg, paras |-> <<>>, loose |-> {}, regen |-> AlwaysRegen]
+Closed == [m |-> NoPkg, o |-> NoPkg, paras |-> <<>>, loose |-> {}, regen |-> AlwaysRegen, xrels |-> {}]
 
 ParaAppenders == {"AddParagraph", "AddHeading", "AddFormattedParagraph", "AddImage", "AddListItem",
                   "AddFootnote", "AddEndnote", "AddPageBreak"}
@@ -297,6 +298,14 @@ Touches(e) ==
     [] e.op = "SetTitle"          -> {"docProps/core.xml", "docProps/app.xml"}
     [] e.op = "AddHeading"        -> {StylesPart}
     [] OTHER                      -> {}
+
+\* relationships an edit replaces by design: AddHeader/AddFooter of kind t replaces the section's
+\* reference of kind t, and with it the relationship that reference used
+TouchesRels(o, e) ==
+  IF e.op \in {"AddHeader", "AddFooter"}
+  THEN {<<r.src, r.id>> : r \in {x \in o.rels : x.src = DocRels /\ x.ref = e.t
+                                     /\ x.ty = (IF e.op = "AddHeader" THEN "od/header" ELSE "od/footer")}}
+  ELSE {}
 
 \* what an edit adds to the package: [part name, kind, rel type, rel target] or none
 NewPart(e, ch) ==
@@ -333,7 +342,8 @@ ApplyPkg(m, e, ch) ==
 
 Apply(s, e, ch) ==
   IF e.op = "Open" THEN InitOf(e.pkg)
-  ELSE LET s1 == [s EXCEPT !.regen = s.regen \cup Touches(e), !.m = ApplyPkg(s.m, e, ch)] IN
+  ELSE LET s1 == [s EXCEPT !.regen = s.regen \cup Touches(e), !.xrels = s.xrels \cup TouchesRels(s.o, e),
+                           !.m = ApplyPkg(s.m, e, ch)] IN
        IF e.op \in ParaAppenders THEN [s1 EXCEPT !.paras = Append(s.paras, {})]
        ELSE IF e.op = "RemoveParagraphAt" THEN
             IF e.i >= 0 /\ e.i < Len(s.paras) THEN [s1 EXCEPT !.paras = RemoveIdx(s.paras, e.i + 1)] ELSE s1
@@ -363,29 +373,36 @@ Viol_Parts(b, m, regen, a) ==
 
 SameTarget(x, r) == IF r.mode = "External" THEN x.tg = r.tg ELSE x.rt = r.rt
 
+\* the tag says whose relationships are concerned: the package's, the main part's, another part's
+RelTag(src, t) == IF src = PkgRels THEN "pkg-" \o t ELSE IF src = DocRels THEN t ELSE "part-" \o t
+
 Viol_Rel(r, k, a) ==
-  LET hit == {x \in a.rels : x.src = r.src /\ x.id = r.id} IN
+  LET hit == {x \in a.rels : x.src = r.src /\ x.id = r.id}
+      T(t) == RelTag(r.src, t)
+  IN
   IF hit = {} THEN
        IF \E x \in a.rels : x.src = r.src /\ x.ty = r.ty /\ x.mode = r.mode /\ SameTarget(x, r)
-       THEN {<<"rel-id-changed", k>>} ELSE {<<"rel-dropped", k>>}
-  ELSE IF Cardinality(hit) > 1 THEN {<<"rel-id-reused", k>>}
+       THEN {<<T("rel-id-changed"), k>>} ELSE {<<T("rel-dropped"), k>>}
+  ELSE IF Cardinality(hit) > 1 THEN {<<T("rel-id-reused"), k>>}
   ELSE LET x == CHOOSE x \in hit : TRUE IN
-         (IF x.ty # r.ty THEN {<<"rel-type-changed", k>>} ELSE {})
+         (IF x.ty # r.ty THEN {<<T("rel-type-changed"), k>>} ELSE {})
     \cup (IF x.mode # r.mode
-            THEN {<<IF r.mode = "External" THEN "rel-mode-lost" ELSE "rel-mode-changed", k>>}
-          ELSE IF ~SameTarget(x, r) THEN {<<"rel-target-changed", k>>} ELSE {})
+            THEN {<<T(IF r.mode = "External" THEN "rel-mode-lost" ELSE "rel-mode-changed"), k>>}
+          ELSE IF ~SameTarget(x, r) THEN {<<T("rel-target-changed"), k>>} ELSE {})
 
-\* relationships of a part that an edit replaced by design are not claimed
-Viol_Rels(b, m, regen, a) ==
-  UNION {Viol_Rel(r, KindOfRel(m, r.src, r.id), a) : r \in {x \in b.rels : x.src \notin (regen \ AlwaysRegen)}}
+\* relationships of a part that an edit replaced by design, and relationships an edit replaced, are not claimed
+Viol_Rels(b, m, regen, xrels, a) ==
+  UNION {Viol_Rel(r, KindOfRel(m, r.src, r.id), a) :
+           r \in {x \in b.rels : x.src \notin (regen \ AlwaysRegen) /\ <<x.src, x.id>> \notin xrels}}
 
 Viol_Text(m, exp, a) ==
   IF a.body # "ok" THEN {<<"text-lost", "body-" \o a.body>>}
   ELSE {<<"text-lost", LabelOfTok(m.body, t)>> : t \in exp \ a.toks}
 
-Viol_C04(b, m, regen, exp, a) ==
-  IF a.zip # "ok" THEN {<<"C04", "saved-unreadable", a.zip>>}
-  ELSE {<<"C04">> \o w : w \in Viol_Parts(b, m, regen, a) \cup Viol_Rels(b, m, regen, a) \cup Viol_Text(m, exp, a)}
+\* raw witnesses <<tag, label>>; the judge prefixes the property id and the operation
+Viol_C04(b, s, a) ==
+  IF a.zip # "ok" THEN {<<"saved-unreadable", a.zip>>}
+  ELSE Viol_Parts(b, s.o, s.regen, a) \cup Viol_Rels(b, s.o, s.regen, s.xrels, a) \cup Viol_Text(s.o, ExpToks(s), a)
 
 \* ---- lossy variants (what an implementation with a suspected defect would write);
 \*      used by Foreign_MC to show each detector fires exactly when it should -------
